@@ -361,10 +361,20 @@ def case_lifetime(case):
     try:
         # (a) built with n1, renumbered to n2, then written
         o = cls(n1)
+        if n1 % 2:
+            # the object has been compared (and, where possible, hashed) before it is renumbered
+            _ = (o == cls(n1), o != cls(n2), o == 5, o in [cls(n2), cls(n1)])
+            try:
+                hash(o)
+            except TypeError:
+                pass
         setattr(o, attr, n2)
         f = frame.ForwardFrame(bits, v | (1 << 16) if bits == 24 else v)
         o.add_to_frame(f)
         r = address.from_frame(f)
+        if not (o == cls(n2)) or (o != cls(n2)) or (o == cls(n1)) or not (cls(n2) == o):
+            out.append(("C04:renumbered-object-compares-as-its-old-number:" + name,
+                        "%s: after renumbering %d -> %d the object ==%s(%d): %r, ==%s(%d): %r" % (where, n1, n2, name, n2, o == cls(n2), name, n1, o == cls(n1))))
         if describe(r) != (name, n2) or not (r == o):
             out.append(("C04:renumbered-object-written-with-old-number:" + name,
                         "%s: object renumbered %d -> %d writes a field that reads back as %r" % (where, n1, n2, describe(r))))
@@ -481,6 +491,40 @@ def case_user_subclass(case):
     except Exception as e:  # noqa
         out.append(("C04:user-subclass-raised:%s" % type(e).__name__, "variant %s: %r" % (variant, e)))
     return out
+
+
+def _short_first_shard(_):
+    """Runs in a process of its own: the program has used the frame slice interface on frames of OTHER lengths
+    (every bit range, before any address was ever written) - writing and reading addresses is unaffected."""
+    address, frame, exc = _mods()
+    res = Result()
+    for w in (8, 12, 16, 17, 20, 25, 32):
+        f = frame.Frame(w, 0)
+        g = frame.ForwardFrame(w, (1 << w) - 1)
+        for hi in range(w):
+            for lo in range(hi + 1):
+                f[hi:lo] = (1 << (hi - lo + 1)) - 1
+                g[hi:lo] = 0
+                _ = f[hi:lo]
+    n = 0
+    for space, objs in (("gear", gear_objects(address, 1)), ("device", device_objects(address, 1)), ("instance", instance_objects(address, 1))):
+        for idx in range(len(objs)):
+            for v in ((0xFFFFFF, 0x000000, 0xA5A5A5, 0x5A5A5A) if space != "gear" else (0xFFFF, 0x0000, 0xA5A5)):
+                case = {"op": "write", "space": space, "idx": idx, "v": v, "after": "slices-on-other-lengths"}
+                n += 1
+                for sig, msg in case_write(case):
+                    res.violation(sig + ":after-slices-on-other-frame-lengths", case, msg)
+    for bits, vals in ((16, range(0, 1 << 16, 257)), (24, range(0, 1 << 24, 65793))):
+        for v in vals:
+            case = {"op": "decode", "bits": bits, "v": v}
+            n += 1
+            for sig, msg in case_decode(case):
+                res.violation(sig + ":after-slices-on-other-frame-lengths", case, msg)
+    res.count(n)
+    res.nontrivial(n=n)
+    res.label("after-slices-on-other-frame-lengths", n)
+    res.sample({"op": "write", "space": "instance", "idx": 3, "v": 0xFFFFFF, "after": "slices-on-other-lengths"}, cls="process history")
+    return res
 
 
 def _subclass_shard(variant):
@@ -637,5 +681,6 @@ def run(ctx):
         shards.append(("lifetime", ci, ctx.seed))
     ctx.pmap(_shard, shards)
     ctx.pmap(_subclass_shard, ["label", "renumbering"], fresh=True)
+    ctx.pmap(_short_first_shard, [None], fresh=True)
     ctx.result.exhaustive = not q
     ctx.result.extra["strides"] = {"gear_write": stride, "device_write": dstride, "instance_write": istride, "decode24": d24}
